@@ -2101,7 +2101,7 @@ class Node(SimComponent, ABC):
 
         to the red agent.
         """
-        self.node_scan_countdown = self.config.node_scan_duration
+        self.node_scan_countdown = max(self.config.node_scan_duration, 1)
         return True
 
     def reveal_to_red(self) -> bool:
